@@ -309,9 +309,10 @@ def _start_reaper(sid, uid, tmax):
         return None
 
 
-def run_case(case, deadline_s=30.0, settle_s=6.0):
+def run_case(case, deadline_s=30.0, settle_s=6.0, module="ekw.c05_cluster"):
     """Run one (fault) run. Returns the observation dict:
-    ended: ok|error|hang|infra ; outputs ; leftover_procs ; leftover_shm ; wall."""
+    ended: ok|error|hang|infra ; outputs ; leftover_procs ; leftover_shm ; wall.
+    `module`: the runner module started as `python -m <module> <case json>` (it calls its own runner_main; used by ekw.c01_real)."""
     case = dict(case)
     uid = "v5%x%x" % (os.getpid() % 0xFFFF, int(time.time() * 1000) % 0xFFFFFF)
     case["uid"] = uid
@@ -319,7 +320,7 @@ def run_case(case, deadline_s=30.0, settle_s=6.0):
     case["pidfile"] = f"/tmp/{uid}.pids"
     env = dict(os.environ)
     t0 = time.time()
-    proc = subprocess.Popen([sys.executable, "-m", "ekw.c05_cluster", json.dumps(case)], stdout=subprocess.PIPE,
+    proc = subprocess.Popen([sys.executable, "-m", module, json.dumps(case)], stdout=subprocess.PIPE,
                             stderr=(open(case["debug"], "w") if case.get("debug") else subprocess.DEVNULL), stdin=subprocess.DEVNULL, env=env, start_new_session=True)
     sid = proc.pid
     reaper = _start_reaper(sid, uid, deadline_s + settle_s + 60)
